@@ -220,6 +220,7 @@ def problems(draw, max_surveys=3, max_epochs=8, max_poly=3, n_rows=(4, 8), units
     nr = draw(st.integers(*n_rows))
     spec["rows"] = draw(rows(nr, spec["prior"], sv[0]["unit"], d["scale_kms"], float(np.median(errs))))
     spec["row_units"] = draw(row_units(units))
+    spec["lib_history"] = draw(st.sampled_from(LIB_HISTORIES))
     if allow_f4 and draw(st.integers(0, 7)) == 0:
         # single-precision library, stored in the sampler's internal units (so that no path does unit arithmetic in
         # float32: only the documented up-cast to float64 is exercised)
@@ -359,4 +360,42 @@ def build_samples(spec, rows=None, extra=None):
     if extra:
         for k, val in extra.items():
             smp[k] = val
+    age_samples(smp, spec.get("lib_history"))
+    return smp
+
+
+LIB_HISTORIES = [None, None, None, None, "pack_units", "setitem", "inplace"]
+
+
+def age_samples(smp, mode):
+    """Give a JokerSamples object a previous life that ends in its present content (the content itself is untouched):
+      pack_units : its packed form was requested before, once in other units (a read-only operation)
+      setitem    : it held other values, was packed (as the in-memory samplers do), then its columns were re-assigned
+      inplace    : the same, the columns being overwritten in place (samples["P"][:] = ..., as wrap_K does)
+    Results computed from it afterwards must depend on its present content only."""
+    import astropy.units as u
+
+    if not mode or len(smp) == 0:
+        return smp
+    if mode == "pack_units":
+        smp.pack(units={"P": u.year, "omega": u.deg, "M0": u.deg})
+        smp.pack(nonlinear_only=True)
+        return smp
+    cols = [nm for nm in ("P", "e", "omega", "M0") if nm in smp.par_names]
+    truth = {nm: smp[nm].copy() for nm in cols}
+    for nm in cols:
+        alt = truth[nm] * (0.5 if nm == "e" else 2.0)
+        if mode == "setitem":
+            smp[nm] = alt
+        else:
+            smp[nm][:] = alt
+    smp.pack()
+    smp.pack(nonlinear_only=False)
+    for nm in cols:
+        if mode == "setitem":
+            smp[nm] = truth[nm]
+        else:
+            smp[nm][:] = truth[nm]
+    for nm in cols:
+        assert np.array_equal(np.asarray(smp[nm].value), np.asarray(truth[nm].value)), "harness: ageing changed the content"
     return smp
